@@ -122,11 +122,10 @@ func runScene(enc *json.Encoder, c Case, seed int64) error {
 		line := newBatch("hit", c.Id)
 		batch := make([]hitEntry, 0, len(c.Rays))
 		for qi, q := range c.Rays {
-			td := float64(q[8])
-			t0, t1 := float64(q[6])/td, float64(q[7])/td
-			ray := rendering.NewTemporalRay(v3(q[0:3]), v3(q[3:6]), 0)
+			ro, rd, t0, t1 := rayParts(q)
+			ray := rendering.NewTemporalRay(ro, rd, 0)
 			bad := false
-			e := hitEntry{Te: make([]int, n)}
+			e := hitEntry{Tw: q[10], Te: make([]int, n)}
 			for i, it := range items {
 				r := hitOf(it, &ray, t0, t1, &bad)
 				e.Te[i] = None
